@@ -475,19 +475,9 @@ func c07Run(s c07Scn) (c07Obs, []Mon) {
 
 func c07Cls(s c07Scn, pruned bool) string {
 	syn := map[string]bool{}
-	n := 0
-	edits, ctl, upg := 0, 0, 0
 	for _, o := range s.Ops {
-		switch o.Op {
-		case "sync":
+		if o.Op == "sync" {
 			syn[o.Syncer] = true
-			n++
-		case "editClaim":
-			edits++
-		case "xrCtl":
-			ctl++
-		case "upgrade":
-			upg++
 		}
 	}
 	which := "csa"
@@ -496,23 +486,104 @@ func c07Cls(s c07Scn, pruned bool) string {
 	} else if syn["ssa"] {
 		which = "ssa"
 	}
-	pol := "unset"
-	if spec, ok := s.Claim.Spec.(map[string]any); ok {
-		if p, ok := spec["compositionUpdatePolicy"].(string); ok {
-			pol = p
-		}
-	} else {
-		pol = "badspec"
+	spec, ok := s.Claim.Spec.(map[string]any)
+	if !ok {
+		return "malformed/claim-spec-not-object/" + which
 	}
-	first := "first"
 	if s.XR != nil {
-		first = "existingXR"
+		if _, bad := s.XR.Status.(string); bad {
+			return "malformed/xr-status-not-object/" + which
+		}
 	}
-	re := "once"
-	if n > 1 {
-		re = "resync"
+	pol := "unset"
+	if p, ok := spec["compositionUpdatePolicy"].(string); ok {
+		pol = p
 	}
-	return fmt.Sprintf("%s/%s/%s/policy=%s/edit=%v/ctl=%v/upg=%v/pruned=%v", which, first, re, pol, edits > 0, ctl > 0, upg > 0, pruned)
+	start := "first"
+	if s.XR != nil {
+		start = "existingXR"
+	} else if _, ok := spec["resourceRef"]; ok {
+		start = "danglingRef"
+	}
+	_ = pruned
+	return fmt.Sprintf("%s/%s/policy=%s", which, start, pol)
+}
+
+// c07Enum: every subset of the nine claim machinery fields, against no XR and
+// against an XR holding a (mask-derived) subset of its own machinery, for both
+// syncers: 2048 scenarios, split over the shards by the shard index the check
+// script encodes in the seed (seed = VERIF_SEED*1000 + shard).
+func c07Enum(g *c07Gen, shard int, emit func(s c07Scn)) {
+	keys := []string{"compositionRef", "compositionSelector", "compositionRevisionRef", "compositionRevisionSelector",
+		"compositionUpdatePolicy", "compositeDeletePolicy", "resourceRef", "publishConnectionDetailsTo", "writeConnectionSecretToRef"}
+	xrName := c07ClaimName + "-enum0"
+	for mask := 0; mask < 512; mask++ {
+		if mask%8 != shard {
+			continue
+		}
+		for _, withXR := range []bool{false, true} {
+			for _, syncer := range []string{"ssa", "csa"} {
+				r := NewRng(uint64(mask))
+				spec := map[string]any{"region": "cu-eu", "params": map[string]any{"resourceRef": map[string]any{"name": "cu-nested"}, "claimRef": "cu-nested"}}
+				for i, k := range keys {
+					if mask&(1<<i) == 0 {
+						continue
+					}
+					switch k {
+					case "compositionUpdatePolicy":
+						spec[k] = c07Policies[(mask>>4)%2]
+					case "compositeDeletePolicy":
+						spec[k] = "Foreground"
+					case "resourceRef":
+						spec[k] = c07XRRef(xrName)
+					case "publishConnectionDetailsTo":
+						spec[k] = map[string]any{"name": "cm-only-pub"}
+					case "writeConnectionSecretToRef":
+						spec[k] = map[string]any{"name": "cm-only-secret"}
+					default:
+						spec[k] = c07SharedVal(r, k, "cu-")
+					}
+				}
+				s := c07Scn{UserKeys: c07UserKeys, UserStat: c07UserStatus}
+				s.Claim = c07Obj{Name: c07ClaimName, Labels: map[string]string{"team": "cl-0", "app.kubernetes.io/name": "cl-1"},
+					Status: map[string]any{"conditions": c07Conds(r, "cms-", c07Time1), "address": "cus-0"}}
+				if withXR {
+					spec["resourceRef"] = c07XRRef(xrName)
+					xm := (mask*37 + 11) % 512
+					xs := map[string]any{"region": "xu-old", "size": int64(3)}
+					xvals := map[string]any{
+						"claimRef":                    c07ClaimRef(),
+						"resourceRefs":                []any{map[string]any{"apiVersion": "nop.example.org/v1", "kind": "NopResource", "name": "xr-only-cd0"}},
+						"compositionRef":              map[string]any{"name": "xs-comp"},
+						"compositionRevisionRef":      map[string]any{"name": "xs-rev"},
+						"compositionUpdatePolicy":     c07Policies[(xm>>3)%2],
+						"compositionSelector":         map[string]any{"matchLabels": map[string]any{"sel0": "xs-v0"}},
+						"compositionRevisionSelector": map[string]any{"matchLabels": map[string]any{}},
+						"writeConnectionSecretToRef":  map[string]any{"name": "xr-only-secret", "namespace": "crossplane-system"},
+						"publishConnectionDetailsTo":  map[string]any{"name": "xr-only-pub"},
+					}
+					for i, k := range c07SortedKeys(xvals) {
+						if xm&(1<<i) != 0 {
+							xs[k] = xvals[k]
+						}
+					}
+					x := c07Obj{Name: xrName, Labels: map[string]string{"crossplane.io/composite": xrName},
+						Spec: xs, Status: map[string]any{"conditions": c07Conds(r, "xrs-", c07Time2), "address": "xus-1",
+							"connectionDetails": map[string]any{"lastPublishedTime": c07Time2}, "claimConditionTypes": []any{"xrs-Custom"}}}
+					if xm&1 == 1 {
+						x.Annotations = map[string]string{"crossplane.io/external-name": "xr-ext"}
+					}
+					s.XR = &x
+				}
+				s.Claim.Spec = spec
+				s.Ops = []c07Op{{Op: "sync", Syncer: syncer, Gen: xrName}, {Op: "sync", Syncer: syncer, Gen: "unused"}}
+				b, _ := json.Marshal(s)
+				var back c07Scn
+				_ = json.Unmarshal(b, &back)
+				emit(c07Normalize(back))
+			}
+		}
+	}
 }
 
 func init() {
@@ -526,6 +597,12 @@ func init() {
 			}
 		}
 		g := c07NewGen()
+		if shard := int(c.Seed % 1000); c.N > 0 && shard < 8 {
+			c07Enum(g, shard, func(s c07Scn) {
+				obs, mons := c07Run(s)
+				c.Emit(s, obs, mons, "enum/"+c07Cls(s, false))
+			})
+		}
 		for i := 0; i < c.N; i++ {
 			s, pruned := g.Scenario(c.Rng, c.Tier)
 			obs, mons := c07Run(s)
